@@ -20,8 +20,8 @@ ID = 'C10'
 RULE = ('molecules inside the format limits: corpus (raw, normalised, decorated, stereo variants) renumbered with sparse numbers '
         'up to 4095 and half-precision coordinates drawn from random float16 bit patterns (incl. subnormals, signs, zero), '
         'boundary generators for every bit field (atom numbers 1/255/256/4095, 0-15 neighbours, bond counts over all residues '
-        'mod 8 with every order sequence phase, H 0-6/unknown, charges, isotopes, both stereo kinds, cis/trans block sizes), '
-        'reactions with 0-255 molecules per role incl. every role empty, and the published packs of pach/SI.zip; oracle: '
+        'mod 8 with every order sequence phase, H 0-6/unknown, charges, every element with each tabulated isotope, both stereo kinds, cis/trans block sizes), '
+        'reactions with 0-255 molecules per role incl. every role empty and 7-15 coordinate atoms in every position of every role, and the published packs of pach/SI.zip; oracle: '
         'field-by-field identity by atom number and neighbour order, own encoder/decoder of the published layout compared bit '
         'for bit, pack_len vs true counts, pyxsan shadow-memory events; non-trivial = >= 2 atoms with a bond and at least one '
         'of stereo/charge/isotope/H-unknown/number > 255, distinct by pack bytes')
@@ -29,11 +29,11 @@ ASSUMPTIONS = ['CachedMethods compatibility shim',
                'pack/unpack are the .pyx sources executed by pyxsan (source semantics, not a compiled binary)',
                'bytes are compared for coordinates exactly representable in half precision; other coordinates within one ulp']
 CONFIG = {
-    'quick': {'shards': 16, 'budget_s': 200, 'n_corpus': 320, 'n_si': 400, 'n_boundary': 1, 'n_rx': 40, 'big': False,
+    'quick': {'shards': 16, 'budget_s': 200, 'n_corpus': 900, 'n_si': 1200, 'n_boundary': 2, 'n_rx': 100, 'big': False,
               'floors': {'evaluations': 1200, 'distinct_nontrivial': 400, 'roundtrips': 900, 'bytes.compared-with-reference': 750,
                          'si.packs': 350, 'reactions.roundtrips': 20, 'reactions.empty-role': 12, 'pyxsan.loads': 1000000,
                          'reactions.hypercoordinate': 40}},
-    'thorough': {'shards': 16, 'budget_s': 2400, 'n_corpus': 4200, 'n_si': 4200, 'n_boundary': 6, 'n_rx': 80, 'big': True,
+    'thorough': {'shards': 16, 'budget_s': 2400, 'n_corpus': 4200, 'n_si': 4200, 'n_boundary': 20, 'n_rx': 400, 'big': True,
                  'floors': {'evaluations': 12000, 'distinct_nontrivial': 6000, 'roundtrips': 10000,
                             'bytes.compared-with-reference': 8000, 'si.packs': 4200, 'reactions.roundtrips': 60,
                             'reactions.empty-role': 30, 'pyxsan.loads': 10000000, 'reactions.hypercoordinate': 40}},
